@@ -110,12 +110,7 @@ def ipaddr_in_network_tuple(b):
   a = b.int("a", 0, M32)
   n = b.int("n", 0, M32)
   bits = b.int("bits", 0, 32)
-  b.assume(host_bits_zero(n, bits, 32) if b.mode == "conc" else True)
-  if b.mode == "sym":
-    import z3
-    # n has no host bits: n is a multiple of 2^(32-bits); stated with a witness to stay linear per bits value
-    q = b.int("q", 0, M32)
-    b.assume(b.Or(*[b.And(bits == i, n == q * (1 << (32 - i))) for i in range(33)]))
+  # the network may carry host bits (what parse_cidr(..., allow_host=True) returns): they do not take part
   return Case(_in_network, [a, n, bits], ensures={
     "membership_is_prefix_equality": lambda res: res == in_net(a, n, bits, 32),
   })
@@ -132,7 +127,7 @@ def ipaddr_in_network_int_network(b):
   n = b.int("n", 0, M32)
   bits = b.int("bits", 0, 32)
   return Case(_in_network_raw_n, [a, n, bits], ensures={
-    "membership_is_prefix_equality": lambda res: res == in_net(a, n, bits, 32) or not host_bits_zero(n, bits, 32),
+    "membership_is_prefix_equality": lambda res: res == in_net(a, n, bits, 32),
   })
 
 
@@ -321,8 +316,7 @@ def ipaddr6_in_network_tuple(b):
   bits = b.int("bits", 0, 128)
   return Case(_ip6_in_network, [raw, nraw, bits], ensures={
     "membership_is_prefix_equality":
-      lambda res: res == in_net(be_value(raw, 16), be_value(nraw, 16), bits, 128)
-      or not host_bits_zero(be_value(nraw, 16), bits, 128),
+      lambda res: res == in_net(be_value(raw, 16), be_value(nraw, 16), bits, 128),
   })
 
 
